@@ -11,7 +11,8 @@ PROP = dict(
          "last-bit pairs / clusters; per set: Put-build in ascending, descending and random orders (+ replacing updates), "
          "the same mapping as a tree with random label forms (short, long incl. over-long, same) per edge, Get on present and "
          "absent keys, Put on the decoded dictionary; plus leaf-capacity and 7/8/9-bit label boundaries, damaged trees, "
-         "HashmapAugE trees, and every strictly valid Hashmap found in the BOCs of the repo's testdata. "
+         "HashmapAugE trees, and every strictly valid Hashmap found in the BOCs of the repo's testdata (decoded, and "
+         "re-encoded: the hash must not change; likewise for generated trees written canonically by the independent encoder). "
          "non-trivial = distinct (key type, key set) with >= 2 keys, or a real dictionary",
     trusted_base=[
         "translator HashmapKeys (harness/cmd/extract/hashmapkeys.go): go/ast over tlb/*.go, exact method-body templates; "
@@ -48,7 +49,8 @@ PROP = dict(
                "dictionary re-encodes to the updated mapping for every key family incl. signed (decode_then_put_encodes); "
                "the pre-repair encoder fails on the Int8 witness (decode_then_put_unsorted_fails, by decide); encodeMap on the "
                "numeric slice order of signed keys equals encodeMap on bit order (decode_encode_signed); HashmapAugE decode "
-               "(aug_decode_any_valid); the whole property in one statement (build_encode_decode). "
+               "(aug_decode_any_valid); the whole property in one statement (build_encode_decode); the encoder's label form is "
+               "the shortest of the three (labels_shortest). "
                "Tie: hand model, compared line by line with the real code on every run (exact tables of Marshal output, "
                "Keys/Values/Items/Get), plus direct oracles on the Go code alone.",
     level_note="trusted: Lean kernel, the hand model's correspondence harness and its independent dictionary writer, "
